@@ -245,7 +245,7 @@ func (c *Check) JudgeAll(cases []*Case) []*Result {
 			if reruns < 3 {
 				n = 5
 			}
-			if v.Symptom == "timeout" || v.Symptom == "crash" || reruns >= 12 {
+			if strings.Contains(v.Symptom, "timeout") || strings.Contains(v.Symptom, "crash") || reruns >= 12 {
 				n = 1 // a run to the cap is three orders of magnitude above the normal time; one confirmation suffices
 			}
 			reruns++
@@ -265,7 +265,7 @@ func (c *Check) JudgeAll(cases []*Case) []*Result {
 					break
 				}
 			}
-			if !ok && v.Symptom == "timeout" {
+			if !ok && strings.Contains(v.Symptom, "timeout") {
 				// The cap is the only wall-clock oracle; a run that reaches it once on a loaded machine and
 				// terminates normally when repeated alone is not a violation and not a harness error.
 				n, _ := c.Coverage["timeouts_not_reproduced_alone"].(int)
